@@ -113,6 +113,46 @@ def corpus():
     return uniq
 
 
+# a request educing one trait E, plus one attribute naming another trait D somewhere below the type level
+STRAY_FORM = {'Debug': ['Debug', 'Debug(ignore)'], 'Clone': ['Clone', 'Clone(method(m))'], 'Copy': ['Copy'], 'PartialEq': ['PartialEq', 'PartialEq(ignore)'], 'Eq': ['Eq', 'Eq(ignore)'],
+              'PartialOrd': ['PartialOrd', 'PartialOrd(rank = 1)'], 'Ord': ['Ord', 'Ord(ignore)'], 'Hash': ['Hash', 'Hash(method(m))'], 'Default': ['Default', 'Default = 1'],
+              'Deref': ['Deref'], 'DerefMut': ['DerefMut'], 'Into': ['Into(u8)']}
+
+
+def stray_corpus():
+    """(E, D, base text, text with the stray attribute, position tag)"""
+    out = []
+    for e in FEATS:
+        tl = {'Into': 'Into(u8)'}.get(e, e)
+        mark = {'Deref': 'Deref', 'DerefMut': 'DerefMut', 'Into': 'Into(u8)'}.get(e)      # field marker every element needs
+        fm = ('#[educe(%s)] ' % mark) if mark else ''
+        shapes = []
+        # {S} is the stray slot; exactly one slot is filled per input
+        shapes.append(('sn.f1', '#[derive(Educe)] #[educe(%s)] struct Ty { %sf0: u8, {S0}f1: u8 }' % (tl, fm)))
+        shapes.append(('sn.f0', '#[derive(Educe)] #[educe(%s)] struct Ty { {S0}%sf0: u8, f1: u8 }' % (tl, fm)))
+        shapes.append(('st.1', '#[derive(Educe)] #[educe(%s)] struct Ty(%su8, {S0}u8);' % (tl, fm)))
+        for dv in ((0, 1) if e == 'Default' else (None,)):
+            d0 = '#[educe(Default)] ' if dv == 0 else ''
+            d1 = '#[educe(Default)] ' if dv == 1 else ''
+            tag = '' if dv is None else '/default@V%d' % dv
+            enum = '#[derive(Educe)] #[educe(%s)] enum Ty { {S2}%sV0(%su8, {S0}u8), {S3}%sV1 { %sf0: u8, {S1}f1: u8 }%s }' % (tl, d0, fm, d1, fm, '' if mark else ', {S4}V2')
+            for k, pos in enumerate(('V0.1', 'V1.f1', 'V0', 'V1', 'V2')):
+                if '{S%d}' % k in enum:
+                    shapes.append(('en.' + pos + tag, enum.replace('{S%d}' % k, '{S0}').replace('{S1}', '').replace('{S2}', '').replace('{S3}', '').replace('{S4}', '')
+                                   if k == 0 else enum.replace('{S0}', '').replace('{S%d}' % k, '{S0}').replace('{S1}', '').replace('{S2}', '').replace('{S3}', '').replace('{S4}', '')))
+        if e in ('Debug', 'Clone', 'Copy', 'PartialEq', 'Eq', 'Hash', 'Default'):
+            utl = {'Debug': 'Debug(unsafe)', 'PartialEq': 'PartialEq(unsafe)', 'Hash': 'Hash(unsafe)'}.get(e, e)
+            shapes.append(('un.f1', '#[derive(Educe)] #[educe(%s)] union Ty { %sf0: u8, {S0}f1: u8 }' % (utl, '#[educe(Default)] ' if e == 'Default' else '')))
+        for pos, text in shapes:
+            base = text.replace('{S0}', '')
+            for d in FEATS:
+                if d == e:
+                    continue
+                for form in STRAY_FORM[d]:
+                    out.append((e, d, base, text.replace('{S0}', '#[educe(%s)] ' % form), pos))
+    return out
+
+
 def check(v, tier):
     so, deps = core.build_macro()
     rustc, base = cargo_cmdline()
@@ -161,8 +201,18 @@ def check(v, tier):
         binary_all = xp.build_xp()
         xp.init_canon(binary_all)
         corp = corpus()
+        nplain = len(corp)
+        stray = stray_corpus()
+        bases = sorted({b for _, _, b, _, _ in stray})
+        bref = xp.expand_all(binary_all, bases)
+        badb = [(b, r.get('msg')) for b, r in zip(bases, bref) if r['st'] != 'ok']
+        guard(not badb, 'stray-attribute corpus: a base request is refused by the all-features build: %s' % badb[:3])
+        corp += [(frozenset([e, d]), t) for e, d, b, t, pos in stray]
         ref = xp.expand_all(binary_all, [t for _, t in corp])
-        guard(sum(1 for r in ref if r['st'] == 'ok') > 0.9 * len(ref), 'the all-features build refuses too much of the corpus')
+        guard(sum(1 for r in ref[:nplain] if r['st'] == 'ok') > 0.9 * nplain, 'the all-features build refuses too much of the corpus')
+        notused = sum(1 for r in ref[nplain:] if r['st'] == 'err' and 'is not used' in r.get('msg', ''))
+        v.notes['stray_attribute_inputs'] = len(stray)
+        v.notes['stray_refused_as_not_used_by_all_features_build'] = notused
         bsubs = [s for s in subsets(tier, 'behaviour') if s and len(s) < 12]
         xp_main = os.path.join(core.VERIF, 'xp', 'src', 'main.rs')
         # extern arguments for the driver: same dependency artefacts as educe itself
@@ -245,7 +295,7 @@ def check(v, tier):
     return v.finish('build half: feature subsets (quick: size <= 2, >= 10, every coupled pair with and without its partner in four contexts; thorough: all 4096) compiled as a '
                     'proc-macro crate with cargo\'s own extern / check-cfg arguments: no error, no warning; the empty set must fail with the explicit message. Behaviour half: for '
                     'a selection of subsets the crate is built as an rlib under the hook cfg and linked to the in-process driver; a corpus (every trait-group configuration and '
-                    'pairs of groups on the catalogue shapes, stand-alone companions) is expanded: inputs whose traits are all enabled must expand exactly as in the all-features '
+                    'pairs of groups on the catalogue shapes, stand-alone companions; and stray attributes: a request educing one trait E with one attribute naming another trait D on a struct field, tuple-struct field, tuple-variant field, named-variant field, variant (default and non-default variants under Default) or union field, every ordered pair (E, D) in bare and parameterised form) is expanded: inputs whose traits are all enabled must expand exactly as in the all-features '
                     'build, the others must be refused naming a disabled trait as unsupported; non-trivial = subset with both kinds of input',
                     {'bounds': {'tier': tier}})
 def replay(path):
